@@ -87,6 +87,25 @@ def w_program(case):
                         'expected': exp, 'observed': y, 'behaviour': 'trajectory'})
                 if pi == 0 and ti == 0:
                     outcome.append(tol.rnd(y, 6))
+    # a copy taken after simulations solves the same initial-value problem, at the
+    # point simulated last and at another one
+    sel_last = list(case['selections'][-1])
+    for mc, what in ((m.copy(), 'copy'),
+                     (chi.ReducedMechanisticModel(m).copy(), 'copy of the wrapper')):
+        for pv_c in (case['points'][-1], case['points'][0]):
+            times_c = case['grids'][-1]
+            y = np.asarray(mc.simulate(list(pv_c), list(times_c)), dtype=float)
+            ref = rc.solve(desc, dict(zip(names, pv_c)), times_c)
+            exp = np.real(np.array([ref[o] for o in sel_last]))
+            ntr += 1
+            if y.shape != exp.shape or not tol.allclose(
+                    y, exp, tol.ODE_REL, tol.ODE_ABS):
+                viol.append({
+                    'sub': 'copy_trajectory', 'message': 'a %s taken after '
+                    'simulations does not return the solution of the IVP (%s)'
+                    % (what, lab), 'expected': exp, 'observed': y,
+                    'behaviour': 'copy_trajectory'})
+                break
     # sensitivities, all parameters, then fixed subsets via ReducedMechanisticModel
     pv = case['points'][0]
     times = case['grids'][1]
@@ -158,6 +177,29 @@ def w_program(case):
                          'expected': eS, 'observed': S, 'behaviour': 'sens'})
         outcome.append(tol.rnd(S, 5))
         model.enable_sensitivities(False)
+    # a subset requested by name in another order than the published one (and with
+    # a name twice): columns are the requested parameters in PUBLISHED order
+    n_all = len(names)
+    for req_idx in ([n_all - 1, 0], [1, n_all - 1, 1], list(range(n_all))[::-1]):
+        m.set_outputs(list(sel))
+        m.enable_sensitivities(True, [names[i] for i in req_idx])
+        free_idx = sorted(set(req_idx))
+        y, S = m.simulate(list(pv), list(times))
+        ntr += 2
+        S = np.asarray(S, dtype=float)
+        x_all = np.array(pv, dtype=float)
+        eS = np.empty((len(times), len(sel), len(free_idx)))
+        for k, i in enumerate(free_idx):
+            z = x_all.astype(complex)
+            z[i] += 1j * 1e-30
+            eS[:, :, k] = (np.imag(closed(z, list(range(n_all)))) / 1e-30).T
+        if S.shape != eS.shape or not tol.allclose(S, eS, 1e-5, 1e-7):
+            viol.append({'sub': 'sens_request_order', 'message': 'sensitivities '
+                         'requested by name (%s) are not those parameters in '
+                         'published order (%s)' % (req_idx, lab), 'expected': eS,
+                         'observed': S, 'behaviour': 'sens_request_order'})
+            break
+    m.enable_sensitivities(False)
     # sensitivities must follow the free set through fix / swap / release calls made
     # while they are enabled
     if case.get('swap'):
@@ -211,6 +253,33 @@ def w_program(case):
             fixed = [0]
             free_idx = [i for i in range(len(names)) if i not in fixed]
             x = np.array([pv[i] for i in free_idx], dtype=float)
+            if variant in ('plain_numbers', 'plain_protocol'):
+                import myokit
+                duration = 0.4
+                if variant == 'plain_numbers':
+                    md.set_dosing_regimen(dose, start=start, duration=duration)
+                else:
+                    # twice: the regimen applied is the one given last
+                    p0 = myokit.Protocol()
+                    p0.add(myokit.ProtocolEvent(9.0, 0.1, 0.2))
+                    md.set_dosing_regimen(p0)
+                    p1 = myokit.Protocol()
+                    p1.add(myokit.ProtocolEvent(dose / duration, start, duration))
+                    md.set_dosing_regimen(p1)
+                events = [(start, duration, dose / duration)]
+                y = np.asarray(md.simulate(list(pv), list(times)), dtype=float)
+                ntr += 2
+                r_ = rc.solve(desc, dict(zip(orig, pv)), times, dosed=comp,
+                              events=events)
+                ey = np.real(np.array([r_[o] for o in sel]))
+                if y.shape != ey.shape or not tol.allclose(
+                        y, ey, tol.ODE_REL, tol.ODE_ABS):
+                    viol.append({'sub': 'dosed_values', 'message': 'simulation of '
+                                 'the dosed model is not the solution of the dosed '
+                                 'initial-value problem (%s, %s)' % (lab, variant),
+                                 'expected': ey, 'observed': y,
+                                 'behaviour': 'dosed_values'})
+                continue
             if variant == 'wrapper_default':
                 # documented default of the wrapper: bolus of duration 0.01
                 rm = chi.ReducedMechanisticModel(md)
@@ -425,7 +494,8 @@ def build(tier, seed):
                       'rename': [[], [1], list(range(n)), [0, n - 1]][di % 4],
                       'dosed': sorted(c['id'] for c in desc['comps'])[
                           di % len(desc['comps'])],
-                      'dose_variants': ['sens_twice', 'fix_after_sens', 'subset',
+                      'dose_variants': ['plain_numbers', 'plain_protocol',
+                                        'sens_twice', 'fix_after_sens', 'subset',
                                         'toggle', 'wrapper_default']})
     lib = []
     for kind in LIB_NAMES:
